@@ -130,6 +130,21 @@ def run_check(pid, tier):
                 from .selftest import run_all
                 selftest = run_all(pid)
     except AnalysisBroken as e:
+        hook = getattr(mod, "on_analysis_broken", None)
+        v = hook(e) if hook else None
+        if v:
+            # the failure of the analysis is itself the finding (e.g. the single header no longer compiles where the library does)
+            os.makedirs(REPORT_DIR, exist_ok=True)
+            report_path = os.path.join(REPORT_DIR, "%s.json" % pid)
+            o = {"rule": v["rule"], "site": v["site"], "verdict": "violated", "what": v["what"], "config": "headeronly", "key": "%s|%s" % (v["rule"], v["key"])}
+            known = {k["key"] for k in load_known() if k.get("property") == pid and k.get("status") == "open"}
+            if o["key"] not in known:
+                json.dump({"property": pid, "tier": tier, "violations": [o], "rules": {v["rule"]: v.get("rule_text", "")}}, open(report_path, "w"), indent=1)
+                write_evidence(pid, tier, level, {"explanation": getattr(mod, "EXPLANATION", ""), "obligations": 1, "discharged": 0, "violated": 1, "samples": [o],
+                                                  "evaluations": 0, "distinct_nontrivial": 0}, [], time.time() - t0, 1)
+                print("  violated %s at %s: %s" % (o["rule"], o["site"], o["what"]))
+                print("VIOLATION property=%s replay=%s" % (pid, report_path))
+                return 1
         print("ANALYSIS-BROKEN property=%s reason=%s" % (pid, e))
         # evidence still records the failed run (no claim is made)
         write_evidence(pid, tier, level, {"explanation": "analysis broken: %s" % e, "obligations": 0, "discharged": 0,
